@@ -15,11 +15,17 @@ Record gcase := mkG {
   g_obs : gobs
 }.
 
+(* an item whose NAME is a Rust keyword (a GraphQL type, fragment or operation named `type`, `match`,
+   `Self` ...): the generator emits the identifier as it stands and the token stream is not Rust (known
+   finding K15) *)
+Definition keyword_item_name (ms : list rmodule) : bool :=
+  existsb (fun m => existsb (fun i => mem_str (item_name i) reference_keywords) (m_items m)) ms.
+
 Definition gen_model (c : gcase) : gobs :=
   match schema_of_sdl (g_schema c) with
   | Ok s =>
       match generate s (g_doc c) (g_opts c) "<same>" with
-      | Ok ms => GOk ms
+      | Ok ms => if keyword_item_name ms then GUnparsable else GOk ms
       | Err _ => GErr
       | Panic _ => GPanic
       end
